@@ -94,6 +94,7 @@ Print Assumptions C13_nd_cap_components.
 From Coq Require Import Reals.
 From Coquelicot Require Import Coquelicot.
 From EPG Require PruneBound.
+From EPG Require Import CInst.
 
 (* (9) pruning bound, ONE pruning step (PARTIAL: the property's bound 2*eps*cumulative-state-count over a whole
    program also needs the propagation of the removed amplitudes through the following operators, which is not
@@ -115,3 +116,22 @@ Theorem C13_prune_tol0_exact (m : list bool) (l : list (C * C)) :
   PruneBound.psum (select m l) = PruneBound.psum l.
 Proof. exact (PruneBound.prune_value_exact_tol0 m l). Qed.
 Print Assumptions C13_prune_tol0_exact.
+
+(* (11) the same bound on the MODEL's own pruning mask: for the complex instance of [shiftnd], any batch entry o of the
+   relocated amplitudes and any reconstruction weights chi with |chi_j| <= 1, pruning with the mask
+   keep_centre (nonzero_mask negl ..) changes  sum_j chi_j F+_j(o)  by at most eps per removed state, provided the
+   tolerance test implies |F+| <= eps (still ONE pruning step) *)
+Theorem C13_prune_step_bound_model_partial (negl : triple Cops -> bool) (eps : R) (keys : list key)
+    (amps : list (list (triple Cops))) (dk : key) (kdim : nat) (nmax : option Z) (chi : nat -> C) (o : list (triple Cops)) :
+  let p := shiftnd_plan keys dk kdim nmax in
+  let n2 := length (pk p) in
+  let outs := map (relocate p) amps in
+  let mask := keep_centre (nonzero_mask negl n2 outs) in
+  let l := map (fun j => (chi j, fp (nth j o t0))) (seq 0 n2) in
+  (0 <= eps)%R ->
+  (forall t : triple Cops, negl t = true -> (Cmod (fp t) <= eps)%R) ->
+  (forall j, (Cmod (chi j) <= 1)%R) ->
+  In o outs ->
+  (Cmod (Cminus (PruneBound.psum l) (PruneBound.psum (select mask l))) <= eps * INR (PruneBound.nremoved mask))%R.
+Proof. exact (PruneBound.prune_step_bound_model negl eps keys amps dk kdim nmax chi o). Qed.
+Print Assumptions C13_prune_step_bound_model_partial.
